@@ -64,7 +64,9 @@ def canonicalize_addition(expr: AffineBinaryOpExpr) -> AffineExpr:
     # turn (a + b) + c into a + (b + c)
     if isinstance(expr.lhs, AffineBinaryOpExpr) and expr.lhs.kind is AffineBinaryOpKind.Add:
         new_expr = expr.lhs.lhs + (expr.lhs.rhs + expr.rhs)
-        assert isinstance(new_expr, AffineBinaryOpExpr)
+        if not isinstance(new_expr, AffineBinaryOpExpr):
+            # the addition got folded away, e.g. (a + 3) + -3 = a
+            return new_expr
         expr = new_expr
     return expr
 
